@@ -723,6 +723,16 @@ fn exec_inner(s: &mut CrdtSession, toks: &[&str], enc: TextEncoding) -> Vec<Stri
             if let (Some(h), true) = (h, isolated) { s.iso_snap.insert(toks[1].to_string(), vec![h]); }
             match h { Some(h) => { let mut v = vec!["ok".to_string(), format!("#hash {}", hex::encode(h.0))]; v.extend(orc); v } None => vec!["none".to_string()] }
         }
+        // an EMPTY local change (`AutoCommit::empty_change`, the "merge commit"): it claims the next (actor, seq)
+        // of the replica's actor exactly like a commit with ops, through `TransactionInner::empty` → `commit_impl`
+        "crdt.emptycommit" => {
+            let d = s.replicas.get_mut(toks[1]).unwrap();
+            if d.pending_ops() > 0 || s.iso_snap.contains_key(toks[1]) { return vec!["bad-input".into()]; }
+            let h = d.empty_change(automerge::transaction::CommitOptions::default().with_time(0));
+            let mut v = vec!["ok".to_string(), format!("#hash {}", hex::encode(h.0))];
+            v.extend(own_previous_change_oracle(d, &h, false));
+            v
+        }
         // extension engines sharing this session's replicas (each in its own file)
         #[cfg(feature = "e_richtext")]
         c if c.starts_with("crdt.rt.") => super::richtext::exec(s, toks, enc),
@@ -876,8 +886,64 @@ pub fn generate_focus(r: &mut Rng, sess: &mut Session, out: &mut Out) {
     exec_line(sess, "crdt.state l", out);
 }
 
+/// scripted history for C38 / C05: a stale copy of a replica keeps the SAME actor id and mints (A, n), (A, n+1) on
+/// top of another actor's change; those reach the original replica BEFORE their dependency and sit in its queue;
+/// the original then claims (A, n) itself — with an ordinary commit or with an EMPTY change (`empty_change`) —
+/// which must discard the queued conflicting branch; the missing dependency arrives afterwards
+pub fn generate_reuse(r: &mut Rng, sess: &mut Session, out: &mut Out) {
+    out.count("reuse_cases");
+    let a = hex::encode([0x30 + r.below(0x60) as u8, r.next() as u8]);
+    let b = hex::encode([0x20 + r.below(0x80) as u8, r.next() as u8, 7]);
+    exec_line(sess, &format!("crdt.new r0 cp {}", a), out);
+    let mut ko: Vec<(String, ObjType)> = vec![("_".into(), ObjType::Map)];
+    let mut all: Vec<String> = vec![];
+    for _ in 0..r.range(1, 3) { local_tx(r, sess, out, "r0", &mut ko, &mut all); }
+    exec_line(sess, &format!("crdt.fork r0 r1 {}", a), out);
+    exec_line(sess, &format!("crdt.fork r0 r2 {}", b), out);
+    let n0 = all.len();
+    for _ in 0..r.range(1, 2) { local_tx(r, sess, out, "r2", &mut ko, &mut all); }
+    let theirs: Vec<String> = all[n0..].to_vec();
+    if theirs.is_empty() { return; }
+    exec_line(sess, &format!("crdt.apply r1 {}", theirs.join(",")), out);
+    let n1 = all.len();
+    for _ in 0..r.range(1, 3) { local_tx(r, sess, out, "r1", &mut ko, &mut all); }
+    let stale: Vec<String> = all[n1..].to_vec();
+    if stale.is_empty() { return; }
+    // the stale branch arrives first (its dependency on actor B is missing): it is queued
+    let mut pick = stale.clone();
+    if r.chance(1, 2) { pick.reverse(); }
+    if r.chance(1, 3) { pick.truncate(1); }
+    exec_line(sess, &format!("crdt.apply r0 {}", pick.join(",")), out);
+    // r0 claims the same (actor, seq) locally
+    if r.chance(2, 3) {
+        out.count("reuse_empty_change");
+        let res = exec_line(sess, "crdt.emptycommit r0", out);
+        if res[0] == "ok" {
+            let hh = ChangeHash::try_from(unhx(res[1].strip_prefix("#hash ").unwrap()).as_slice()).unwrap();
+            let c = sess.crdt.replicas.get_mut("r0").unwrap().get_change_by_hash(&hh).unwrap();
+            exec_line(sess, &def_line(&c), out);
+            exec_line(sess, &format!("crdt.local r0 {}", hex::encode(hh.0)), out);
+        }
+    } else {
+        out.count("reuse_commit_with_ops");
+        let mut scratch = vec![];
+        local_tx(r, sess, out, "r0", &mut ko, &mut scratch);
+    }
+    exec_line(sess, "crdt.state r0", out);
+    // the missing dependency arrives: nothing of the discarded branch may be released
+    for h in theirs.iter() { exec_line(sess, &format!("crdt.apply r0 {}", h), out); }
+    exec_line(sess, "crdt.state r0", out);
+    exec_line(sess, &format!("crdt.saveload r0 l {}", r.below(2)), out);
+    exec_line(sess, "crdt.state l", out);
+    // and r0 keeps working
+    let mut scratch = vec![];
+    local_tx(r, sess, out, "r0", &mut ko, &mut scratch);
+    exec_line(sess, "crdt.state r0", out);
+}
+
 pub fn generate(r: &mut Rng, _opts: &BTreeMap<String, String>, sess: &mut Session, out: &mut Out) {
     if r.chance(1, 3) { return generate_focus(r, sess, out); }
+    if r.chance(1, 8) { return generate_reuse(r, sess, out); }
     let encs = ["cp", "utf8", "utf16"];
     let enc = encs[r.below(3) as usize];
     let nrep = r.range(2, 3) as usize;
